@@ -256,6 +256,83 @@ class Abnf:
             return self._first[n[1]]
         raise AnalysisIncomplete(f'ABNF: node {k}')
 
+    def prefixes(self, n, k=2, _memo=None):
+        """prefixes (truncated to k bytes) of the strings a rule derives, byte level"""
+        if not hasattr(self, '_pfx'):
+            self._pfx = {}
+        memo = self._pfx.setdefault(k, {})
+        if isinstance(n, str):
+            n = ('ref', n.lower())
+
+        def cat(A, B):
+            out = set()
+            trunc = {}
+            for x in A:
+                if len(x) >= k:
+                    out.add(x[:k])
+                    continue
+                j = k - len(x)
+                if j not in trunc:
+                    trunc[j] = {y[:j] for y in B}
+                for y in trunc[j]:
+                    out.add(x + y)
+            return frozenset(out)
+
+        def star(P, lo, hi):
+            cur = frozenset([b''])
+            res = set()
+            m = 0
+            while True:
+                if m >= lo:
+                    res |= cur
+                if hi != INF and m >= hi:
+                    break
+                cur = cat(cur, P)
+                m += 1
+                if m > lo + k + 2:
+                    res |= cur
+                    break
+            return frozenset(res)
+
+        def rec(n):
+            kk = n[0]
+            if kk == 'range':
+                return frozenset(bytes([b]) for b in self._bytes_of_range(n[1], n[2]))
+            if kk == 'seqv':
+                return frozenset([bytes(n[1])[:k]])
+            if kk == 'str':
+                outs = {b''}
+                for c in n[1][:k]:
+                    outs = {o + bytes([x]) for o in outs for x in {ord(c.lower()), ord(c.upper())}}
+                return frozenset(outs)
+            if kk == 'alt':
+                s = frozenset()
+                for x in n[1]:
+                    s |= rec(x)
+                return s
+            if kk == 'cat':
+                cur = frozenset([b''])
+                for x in n[1]:
+                    cur = cat(cur, rec(x))
+                return cur
+            if kk == 'rep':
+                return star(rec(n[3]), n[1], n[2])
+            if kk == 'ref':
+                return memo.get(n[1], frozenset())
+            raise AnalysisIncomplete(f'ABNF: node {kk}')
+        if not memo.get('__done__'):
+            for _ in range(12):
+                changed = False
+                for name, node in self.rules.items():
+                    v = rec(node)
+                    if memo.get(name) != v:
+                        memo[name] = v
+                        changed = True
+                if not changed:
+                    break
+            memo['__done__'] = True
+        return rec(n)
+
     def rep_bounds(self, name, index=0):
         """(lo, hi) of the index-th repetition node found in rule `name` (pre-order)"""
         found = []
